@@ -71,6 +71,35 @@ def cases(draw, prof):
 
 
 PROFILE = specgen.profile()
+# lazy members (bare Iter / Map) directly under coalesce: with total callables and no domains "can be validated" and
+# "can be evaluated" coincide, so the eager reference applies to them as well
+LAZY = specgen.profile(lazy_in_coalesce=True, domain_rate=0.0, total_preds=True, max_defs=3)
+
+
+@st.composite
+def lazy_cases(draw):
+    g = specgen._G(draw, LAZY)
+    for i in range(draw(st.integers(1, 3))):
+        g.defs.append(g.dataset_def(i))
+    members = []
+    for _ in range(draw(st.integers(2, 3))):
+        kind = draw(st.sampled_from(["iter", "map", "node"]))
+        if kind == "iter":
+            members.append({"k": "iter", "items": [g.node(1) for _ in range(draw(st.integers(1, 3)))]})
+        elif kind == "map":
+            members.append({"k": "map", "body": g.node(1), "iters": [[draw(st.sampled_from(["A", "B", "S.X"])), {"k": "val", "v": draw(st.lists(st.sampled_from([1, 2, "a"]), max_size=2))}]],
+                            "as": draw(st.sampled_from(["raw", "values_raw"]))})
+        else:
+            members.append(g.node(1))
+    spec = {"defs": g.defs, "root": {"k": "coalesce", "members": members}}
+    opts = [draw(U.option_dicts(p_present=draw(st.sampled_from([0.4, 0.7]))))]
+    for _ in range(2):
+        o, _ = draw(U.edit_dict(opts[-1]))
+        opts.append(o)
+    return {"spec": spec, "options": opts}
+
+
 PARTS = [
     Part("random-trees", check, strategy=lambda ctx: cases(PROFILE), budget={"quick": 150, "thorough": 2500}),
+    Part("lazy-coalesce", check, strategy=lambda ctx: lazy_cases(), budget={"quick": 60, "thorough": 800}),
 ]
